@@ -25,6 +25,13 @@ Touched(n) == CASE n = "renumber_particles" -> {"sid"}
                 [] n = "merge_dropdup" -> {"obj"}
                 [] OTHER -> {}
 
+\* the inputs of a merge call, in call order ("a2" / "b2": re-tagged copies the harness built, logged with the call)
+In(t, nm) == CASE nm = "a" -> Tbl(t.a0) [] nm = "b" -> Tbl(t.b0) [] nm = "a2" -> Tbl(t.op.a2) [] nm = "b2" -> Tbl(t.op.b2)
+Ins(t) == [k \in DOMAIN t.op.order |-> In(t, t.op.order[k])]
+IsMerge(t) == t.op.name \in {"merge_renumber", "merge_dropdup"}
+PoolOf(t) == Range(Tbl(t.a0)) \cup Range(Tbl(t.b0)) \cup
+             (IF IsMerge(t) THEN Range(Tbl(t.op.a2)) \cup Range(Tbl(t.op.b2)) ELSE {})
+
 Specific(t, T, Bt, P) ==
     LET n == t.op.name IN
     CASE n = "subset" -> IF SubsetExact(T, t.op.f, t.op.vals, P) THEN "none" ELSE "C08_SubsetExact"
@@ -35,12 +42,8 @@ Specific(t, T, Bt, P) ==
                         THEN "none" ELSE "C08_SplitPartitions"
       [] n = "intersect" -> IF IntersectionExact(T, Bt, P) THEN "none" ELSE "C08_IntersectionExact"
       [] n = "dropdup" -> IF DropDupOneBest(T, t.op.f, t.op.asc, P) THEN "none" ELSE "C08_DropDupOneBest"
-      [] n = "merge_renumber" ->
-            IF MergeNumbers(IF t.op.order = "ab" THEN T ELSE Bt, IF t.op.order = "ab" THEN Bt ELSE T, P)
-            THEN "none" ELSE "C08_MergeNumbers"
-      [] n = "merge_dropdup" ->
-            IF MergeDropDupOneBest(IF t.op.order = "ab" THEN T ELSE Bt, IF t.op.order = "ab" THEN Bt ELSE T, P)
-            THEN "none" ELSE "C08_MergeDropDupOneBest"
+      [] n = "merge_renumber" -> IF MergeNumbers(Ins(t), P) THEN "none" ELSE "C08_MergeNumbers"
+      [] n = "merge_dropdup" -> IF MergeDropDupOneBest(Ins(t), P) THEN "none" ELSE "C08_MergeDropDupOneBest"
       [] n = "renumber_particles" -> IF ParticlesRenumbered(T, P) THEN "none" ELSE "C08_ParticlesRenumbered"
       [] n = "renumber_objects" -> IF ObjectsSequential(T, t.op.start, P) THEN "none" ELSE "C08_ObjectsSequential"
 
@@ -50,7 +53,7 @@ Failing(t) ==
         P == Tbl(t.a)
         Q == Tbl(t.b)
     IN  IF \E k \in DOMAIN t.cols : ~Schema(t.cols[k]) THEN "C08_Schema"
-        ELSE IF ~TagsIntact(Range(T) \cup Range(Bt), Touched(t.op.name), P) \/ Q # Bt THEN "C08_TagsIntact"
+        ELSE IF ~TagsIntact(PoolOf(t), Touched(t.op.name), P) \/ Q # Bt THEN "C08_TagsIntact"
         ELSE Specific(t, T, Bt, P)
 
 TraceInit == tid \in 1..Len(Traces) /\ done = FALSE
